@@ -248,7 +248,13 @@ def valid_schema(draw, profile='lang', max_groups=6, max_elements=6, counters=No
         acc += expanded[g['name']]
     free = [n for n in attr_names if n not in acc]
     have_id = gen and name == 'plugin'
-    for n in draw(st.permutations(free))[:draw(st.integers(0, 4))]:
+    chosen = draw(st.permutations(free))[:draw(st.integers(0, 4))]
+    if gen:
+      # the projection in default contexts is keyed on the attribute names `name` and `class`: make them frequent
+      for special_name, p_ in (('name', 0.45), ('class', 0.45)):
+        if special_name in free and special_name not in chosen and b(p_):
+          chosen = [special_name] + list(chosen)
+    for n in chosen:
       at = gen_attr(n, False, allow_id=not (gen and have_id))
       have_id = have_id or at['type'] == 'id'
       acc.append(n)
